@@ -349,4 +349,130 @@ theorem shadowedBy_of_sublist {i : Imp} {l l' : List Imp} (h : l'.Sublist l)
   obtain ⟨j, hj, hp⟩ := hs
   exact ⟨j, h.subset hj, hp⟩
 
+/-! ## Specification vocabulary (independent of the fold in `exports`) -/
+
+/-- A `from` statement reads the module's own package: `from <self or a descendant> import …`
+    (absolute), or `from .[sub] import …` inside an `__init__.py`. -/
+def OwnModule (env : Env) (level : Nat) (module : Option ModName) (fm : ModName) : Prop :=
+  (level = 0 ∧ module = some fm ∧ env.self <+: fm) ∨
+  (level = 1 ∧ env.isInit = true ∧ fm = env.self ++ module.getD [])
+
+/-- `n` is re-exported from the module's own package by a top-level `from` statement, and the
+    thing imported is not itself a module (`probe`: the unfixed code tests the alias, D31). -/
+def OwnReexport (v : Variant) (env : Env) (items : List Item) (n : Str) : Prop :=
+  ∃ lvl mod als fm a, Item.importFrom lvl mod als ∈ items ∧ OwnModule env lvl mod fm ∧
+    a ∈ als ∧ a.name ≠ star ∧ env.exists_ (fm ++ [probe v a]) = false ∧ n = a.bound
+
+/-- The value of `__all__` is statically a literal: the last plain (or, with D8 fixed, annotated)
+    assignment to `__all__` has a literal value `es`, later `__all__ += <literal>` extend it,
+    and no other later statement writes `__all__`.  Statements *before* that assignment are
+    unconstrained. -/
+inductive LitAll (v : Variant) : List Item → List Entry → Prop where
+  | assign {pre : List Item} {it : Item} {es : List Entry} :
+      allAssignVal v it = some (.lit es) → LitAll v (pre ++ [it]) es
+  | aug {items : List Item} {es es' : List Entry} {t : Target} :
+      LitAll v items es → isAllTarget t = true →
+      LitAll v (items ++ [.augAssign t (.lit es')]) (es ++ es')
+  | skip {items : List Item} {es : List Entry} {it : Item} :
+      LitAll v items es → allAssignVal v it = none →
+      (∀ t val, it = .augAssign t val → isAllTarget t = false) →
+      LitAll v (items ++ [it]) es
+
+theorem fromMod_some_iff {env : Env} {lvl : Nat} {mod : Option ModName} {fm : ModName} :
+    fromMod env lvl mod = .ok (some fm) ↔ OwnModule env lvl mod fm := by
+  unfold fromMod OwnModule
+  by_cases h0 : lvl = 0
+  · subst h0
+    cases mod with
+    | none => simp
+    | some m =>
+      simp only [↓reduceIte, Option.some.injEq, true_and, Nat.zero_ne_one, false_and, or_false]
+      by_cases hs : startsWith m env.self = true
+      · simp only [hs, ↓reduceIte, Except.ok.injEq, Option.some.injEq]
+        constructor
+        · rintro rfl; exact ⟨rfl, startsWith_iff.mp hs⟩
+        · rintro ⟨rfl, _⟩; rfl
+      · simp only [hs, ↓reduceIte, Except.ok.injEq, reduceCtorEq, false_iff]
+        rintro ⟨rfl, hp⟩
+        exact hs (startsWith_iff.mpr hp)
+  · simp only [h0, ↓reduceIte, false_and, false_or]
+    by_cases h1 : lvl = 1
+    · subst h1
+      cases hi : env.isInit <;> simp [eq_comm]
+    · simp [h1]
+
+theorem reexportsOf_mem {v : Variant} {env : Env} {it : Item} {xs : List Str} {n : Str}
+    (h : reexportsOf v env it = .ok xs) :
+    n ∈ xs ↔ ∃ lvl mod als fm a, it = .importFrom lvl mod als ∧ OwnModule env lvl mod fm ∧
+      a ∈ als ∧ a.name ≠ star ∧ env.exists_ (fm ++ [probe v a]) = false ∧ n = a.bound := by
+  cases it with
+  | importFrom lvl mod als =>
+    simp only [reexportsOf] at h
+    cases hf : fromMod env lvl mod with
+    | error e => rw [hf] at h; simp at h
+    | ok r =>
+      rw [hf] at h
+      cases r with
+      | none =>
+        simp only [Except.ok.injEq] at h; subst h
+        simp only [List.not_mem_nil, Item.importFrom.injEq, false_iff, not_exists, not_and]
+        rintro lvl' mod' als' fm a ⟨rfl, rfl, rfl⟩ hown
+        rw [← fromMod_some_iff, hf] at hown
+        cases hown
+      | some fm =>
+        simp only [Except.ok.injEq] at h; subst h
+        rw [mem_aliasMembers]
+        constructor
+        · rintro ⟨a, ha, h1, h2, h3⟩
+          exact ⟨lvl, mod, als, fm, a, rfl, fromMod_some_iff.mp hf, ha, h1, h2, h3⟩
+        · rintro ⟨lvl', mod', als', fm', a, heq, hown, ha, h1, h2, h3⟩
+          simp only [Item.importFrom.injEq] at heq
+          obtain ⟨rfl, rfl, rfl⟩ := heq
+          rw [← fromMod_some_iff, hf] at hown
+          simp only [Except.ok.injEq, Option.some.injEq] at hown
+          subst hown
+          exact ⟨a, ha, h1, h2, h3⟩
+  | _ =>
+    simp only [reexportsOf, Except.ok.injEq] at h
+    subst h
+    simp
+
+theorem reexports_mem {v : Variant} {env : Env} {items : List Item} {re : List Str}
+    (h : reexports v env items = .ok re) (n : Str) : n ∈ re ↔ OwnReexport v env items n := by
+  rw [reexports_ok_mem h]
+  constructor
+  · rintro ⟨it, hit, xs, hxs, hn⟩
+    obtain ⟨lvl, mod, als, fm, a, rfl, r⟩ := (reexportsOf_mem hxs).mp hn
+    exact ⟨lvl, mod, als, fm, a, hit, r⟩
+  · rintro ⟨lvl, mod, als, fm, a, hit, hown, ha, h1, h2, h3⟩
+    have hf := fromMod_some_iff.mpr hown
+    refine ⟨_, hit, aliasMembers v env fm als, ?_, ?_⟩
+    · simp [reexportsOf, hf]
+    · exact mem_aliasMembers.mpr ⟨a, ha, h1, h2, h3⟩
+
+theorem litAll_scan {v : Variant} {items : List Item} {es : List Entry} (h : LitAll v items es) :
+    allScan v items = (true, es) ∧ allName ∈ members v items := by
+  induction h with
+  | @assign pre it es hv =>
+    constructor
+    · rw [allScan_snoc]; simp [allStep, hv]
+    · simp only [members, List.flatMap_append, List.mem_append, List.flatMap_cons,
+        List.flatMap_nil, List.append_nil]
+      exact Or.inr (allAssignVal_member hv)
+  | @aug items es es' t _ ht ih =>
+    constructor
+    · rw [allScan_snoc, ih.1]; simp [allStep, allAssignVal, ht]
+    · simp only [members, List.flatMap_append, List.mem_append]
+      exact Or.inl ih.2
+  | @skip items es it _ hv hna ih =>
+    constructor
+    · rw [allScan_snoc, ih.1]
+      simp only [allStep, hv]
+      cases it with
+      | augAssign t val => simp [hna t val rfl]
+      | _ => rfl
+    · simp only [members, List.flatMap_append, List.mem_append]
+      exact Or.inl ih.2
+
+
 end Pfb.C19
